@@ -157,7 +157,15 @@ class Daemon:
 
     def start(self) -> None:
         self.stderr = open(self.path('stderr'), 'w')
-        self.proc = subprocess.Popen([PY, '-m', 'exabgp', 'server', self.path('conf')], env=self.env, stdout=self.stderr, stderr=self.stderr, cwd=self.dir, start_new_session=True)
+        def _die_with_parent():  # a shard killed by its watchdog must not leave a daemon behind
+            try:
+                import ctypes
+
+                ctypes.CDLL('libc.so.6', use_errno=True).prctl(1, 9)  # PR_SET_PDEATHSIG, SIGKILL
+            except Exception:  # noqa
+                pass
+
+        self.proc = subprocess.Popen([PY, '-m', 'exabgp', 'server', self.path('conf')], env=self.env, stdout=self.stderr, stderr=self.stderr, cwd=self.dir, start_new_session=True, preexec_fn=_die_with_parent)
 
     def accept(self, timeout: float = 60.0, addr: str | None = None) -> 'Peer':
         listener = self.more[addr] if addr else self.listener
